@@ -5,6 +5,6 @@ CONSTANTS
   MaxComp = 2
   Kinds = {"Filter", "Aggregate", "Sort", "Take", "Distinct", "DistinctOn", "Join", "Union"}
   Emit = FALSE
-  Report = TRUE
+  Report = FALSE
 INVARIANTS EmittedOk NoLoss Progress Closed
 CHECK_DEADLOCK FALSE
